@@ -526,6 +526,25 @@ def rewrite_charts(data: bytes, how: str, seed: int = 0) -> bytes:
                     for e, v in zip(ords, reversed(vals)):
                         e.set("val", v)
                     changed = True
+            elif how == "shift_order":
+                # c:order numbered from 1 (or higher) while c:idx starts at 0: both stay unique
+                ords = [s_.find(C_ + "order") for s_ in root.iter(C_ + "ser")]
+                if ords and all(e is not None and (e.get("val") or "").isdigit() for e in ords):
+                    for e in ords:
+                        e.set("val", str(int(e.get("val")) + 1 + seed % 3))
+                    changed = True
+            elif how == "reverse_repeated":
+                # lists whose members may come in any order (c:dLbl in c:dLbls, c:dPt in c:ser) stored in reverse
+                for par in list(root.iter(C_ + "dLbls")) + list(root.iter(C_ + "ser")):
+                    for tag in (C_ + "dLbl", C_ + "dPt"):
+                        kids = [e for e in par if e.tag == tag]
+                        if len(kids) >= 2:
+                            pos = [list(par).index(e) for e in kids]
+                            for e in kids:
+                                par.remove(e)
+                            for p_, e in zip(pos, reversed(kids)):
+                                par.insert(p_, e)
+                            changed = True
             elif how == "optional_children":
                 # c:dLbls carrying shape properties (PowerPoint 2013+ writes them) and no number format
                 A_ = "{http://schemas.openxmlformats.org/drawingml/2006/main}"
